@@ -1,6 +1,7 @@
 (* C17 Exec: checkers evaluated by vm_compute on (call history, observed behaviour of collection.Cache). *)
 From God Require Export Base.Prelude C17.Model.
 From God Require C10.Model.
+From God Require Export C17.Spec.
 
 Record obs := mkObs {
   ob_val : option nat;        (* Get/Take: value returned *)
@@ -50,30 +51,7 @@ Fixpoint iter {A} (n : nat) (f : A -> A) (a : A) : A := match n with O => a | S 
 Definition model_ok (c : case) : bool :=
   model_run (iter (c_phase c) (ctick C10.Model.step_ok) (wnew (c_exp c) (c_limit c))) (c_ops c) (c_obs c).
 
-(* ---- the property on the observations: an independent reference cache ----
-   entry = (key, value, tick of its last Set, expiry of its last Set); most recently used first *)
-Definition rentry := (nat * nat * nat * Z)%type.
-Definition rkey (e : rentry) : nat := fst (fst (fst e)).
-Definition rval (e : rentry) : nat := snd (fst (fst e)).
-Definition rset (e : rentry) : nat := snd (fst e).
-Definition rexp (e : rentry) : Z := snd e.
-
-Definition ns : Z := 1000000000.
-Definition tol : Z := 1000.     (* float64 rounding of (1 +- 0.05) * expire, in nanoseconds *)
-(* ticks after the Set at which the entry may be dropped for age: floor(0.95 e / 1s) .. floor(1.05 e / 1s) *)
-Definition lo_ticks (e : Z) : nat := Z.to_nat ((e * 95 / 100 - tol) / ns).
-Definition hi_ticks (e : Z) : nat := Z.to_nat ((e * 105 / 100 + tol) / ns).
-(* the jittered delay is at least one wheel interval (else the entry's age is below the tick granularity) *)
-Definition in_scope (e : Z) : bool := (ns <=? e * 95 / 100 - tol)%Z.
-
-Definition rfind (k : nat) (r : list rentry) : option rentry := find (fun e => rkey e =? k) r.
-Definition rdel (k : nat) (r : list rentry) : list rentry := filter (fun e => negb (rkey e =? k)) r.
-Definition rput (limit : Z) (e : rentry) (r : list rentry) : list rentry :=
-  let r' := e :: rdel (rkey e) r in
-  if (0 <? limit)%Z && (Z.to_nat limit <? length r') then removelast r' else r'.
-Definition rtouch (k : nat) (r : list rentry) : list rentry :=
-  match rfind k r with Some e => e :: rdel k r | None => r end.
-
+(* ---- the property on the observations: replayed on the reference cache of Spec.v ---- *)
 Definition keys_ok (limit : Z) (r : list rentry) (ob : obs) : bool :=
   perm_b (map rkey r) (ob_keys ob) && ((limit <=? 0)%Z || (length (ob_keys ob) <=? Z.to_nat limit)).
 
